@@ -230,13 +230,20 @@ class Verifier(Calls):
                 d = self.alloc("dict", tag)
                 self.set_dict(d, z3.Const("p_" + a.kwarg.arg, KwMap))
                 locs[a.kwarg.arg] = d
+            closure_env = {}
             for gname, gtag in c.ghost_params.items():
-                locs[gname] = self.sym_value(gname, gtag)
+                if ".<" in c.target:
+                    closure_env[gname] = self.sym_value(gname, gtag)    # free variables of a nested function
+                else:
+                    locs[gname] = self.sym_value(gname, gtag)
+            if closure_env:
+                f = FuncV(fnode, mod, cls, closure_env, f.name)
             # the state after parameter set-up is the pre-state
             pre_heap = dict(self.st.heap)
             self.old_stack = [pre_heap]
             self.pre_alloc = self.comp("$alloc")
             entry = dict(locs)
+            entry.update(closure_env)
             fr = Frame(f, locs)
             self.st.frames = [fr]
             self.spec_cls = cls
@@ -268,7 +275,9 @@ class Verifier(Calls):
             fake = ast.Pass(lineno=end_line, col_offset=0)
             if outcome[0] == "normal":
                 res = outcome[1]
-                env["result"] = res
+                env["ret"] = res
+                if "result" not in entry:          # a parameter called `result` keeps its name; the return value is `ret`
+                    env["result"] = res
                 for k, e in enumerate(c.ensures):
                     self.oblige("post", self.spec_bool(parse_expr(e), env), fake, c.labels.get(k, str(k)),
                                 extra=dict(path=list(self.path_notes), exit="normal"))
